@@ -55,6 +55,18 @@ def escape_analysis(repo, model, pm, generic_action_exc=False):
 def run(repo, rep):
     model = FsmModel(repo)
     pm = ProviderModel(repo, model)
+    rep.rule('C12.E6', 'no function of the provider / state machine / codecs reads an ``except ... as name`` variable after its handler '
+             'ended, and none iterates a sequence it changes in the loop body (both turn a handled input into an unhandled error)', 1)
+    from ..pitfalls import mutated_while_iterated, unbound_after_handler
+    p6 = []
+    n6 = 0
+    for f6 in repo.all_functions():
+        if f6.module.name in ('dulprovider', 'fsm', 'pdu', 'userdataitems', 'dimsemessages', 'dsutils'):
+            n6 += 1
+            p6 += unbound_after_handler(f6)
+            if f6.module.name in ('dulprovider', 'fsm'):
+                p6 += mutated_while_iterated(f6)
+    rep.check(not p6, 'C12.E6', 'provider:python-pitfalls', 'pynetdicom2/dulprovider.py', '%d functions' % n6, '; '.join(p6))
     rep.trust('frozen may-raise model of library calls (pnd_static/excmodel.py): Struct.unpack -> struct.error, '
               'bytes.decode -> UnicodeDecodeError, keyed table subscripts -> KeyError, six.indexbytes -> IndexError, '
               'dsutils/pydicom and application callbacks -> Exception, socket send/recv/connect -> OSError, '
